@@ -43,6 +43,10 @@ def _pos():
     return st.one_of(st.floats(1e-3, 1e3),
                      st.builds(lambda m, e: m * 10.0 ** e, st.floats(1.0, 9.999), st.integers(-300, 299)))
 
+# coverage-guided extra (thorough tier): pure-Python modules on the text -> prior path
+FUZZ = {'include': ['taurex.core.priors', 'taurex.util.fitting', 'taurex.parameter.factory', 'taurex.parameter.parameterparser'],
+        'runs': 60000, 'workers': 4}
+
 
 @st.composite
 def _case(draw):
